@@ -69,21 +69,17 @@
 //#define PRINT_F_PREC_SHORTENED 4 /* shortened precision for real numbers */
 #define PRINT_F_PREC_DEFAULT 6 /* default precision for real numbers */
 
-static int print_s(void (*printchar_handler)(void *d, int c),
-                   void *printchar_data,
-                   const char *str,
-                   int width,
-                   int max_len,
-                   unsigned int ops)
+/* prints len characters of str (which may include '\0') padded to width */
+static int print_sn(void (*printchar_handler)(void *d, int c),
+                    void *printchar_data,
+                    const char *str,
+                    int len,
+                    int width,
+                    unsigned int ops)
 {
-    int pc, len, space_count;
+    int pc, space_count;
 
     pc = 0;
-    len = (int)strlen(str);
-    if (ops & OPS_PREC_IS_GIVEN)
-    {
-        len = MIN(max_len, len);
-    }
     space_count = width > len ? width - len : 0;
 
     if (!(ops & OPS_FLAG_LEFT_ALIGN))
@@ -102,6 +98,24 @@ static int print_s(void (*printchar_handler)(void *d, int c),
         printchar_handler(printchar_data, ' ');
 
     return pc;
+}
+
+static int print_s(void (*printchar_handler)(void *d, int c),
+                   void *printchar_data,
+                   const char *str,
+                   int width,
+                   int max_len,
+                   unsigned int ops)
+{
+    int len;
+
+    len = (int)strlen(str);
+    if (ops & OPS_PREC_IS_GIVEN)
+    {
+        len = MIN(max_len, len);
+    }
+
+    return print_sn(printchar_handler, printchar_data, str, len, width, ops);
 }
 
 static int print_i(void (*printchar_handler)(void *d, int c),
@@ -579,13 +593,12 @@ int __printf(void (*printchar_handler)(void *d, int c),
         case 'c':
             /* TODO handle (ops & OPS_LEN_LONG) for wint_t */
             tmp.ca[0] = (char)va_arg(args, int);
-            tmp.ca[1] = '\0';
-            pc += print_s(printchar_handler,
-                          printchar_data,
-                          &tmp.ca[0],
-                          width,
-                          precision,
-                          ops);
+            pc += print_sn(printchar_handler,
+                           printchar_data,
+                           &tmp.ca[0],
+                           1,
+                           width,
+                           ops);
             break;
         case 's':
             /* TODO handle (ops & OPS_LEN_LONG) for wchar_t* */
